@@ -1,16 +1,19 @@
-\* C01 leg A quick: 2 replicas, all subsets of a 6-point grid (4 096 layouts + 64 identical-replica
-\* layouts), InitPen 5 (x1000 ms); per layout one reader from the start and one seek-first reader
-\* per target (5 targets)
+\* C01 leg A quick: 2 replicas, all subsets of a 5-point grid (1 024 layouts + 32 identical-replica
+\* layouts), InitPen 5 (x1000 ms); per layout one reader from the start and every reader that mixes
+\* Next with at most one Seek(x) (4 targets) at any position (seek-first included).
+\* StepwiseEqualsFunctional / OnlyDoneIsFinal are checked in the thorough tier (cost).
 SPECIFICATION Spec
 CONSTANTS InitPen = 5
-          Grid = {0, 1, 4, 6, 11, 17}
+          Grid = {0, 1, 6, 11, 17}
           NumReps = 2
-          MaxLen = 6
+          MaxLen = 5
           Ctr = FALSE
           Starts = {0}
           Incs = {0}
-          Targets = {0, 3, 6, 12, 18}
+          Targets = {0, 6, 12, 18}
           EmitMod = 1
+          MaxSeeks = 1
+          Kinds = {"f"}
 INVARIANTS C01_StrictlyIncreasing C01_FromSomeReplica C01_UnchangedIfIdentical C01_SeekIsSuffix
-           StepwiseEqualsFunctional BoundedOutput OnlyDoneIsFinal
+           C01_FollowsFullStream BoundedOutput
 CHECK_DEADLOCK FALSE
